@@ -277,6 +277,16 @@ Section Router.
     end.
   Definition build := build_from empty_node.
 
+  (* a history of registrations: a refused declaration leaves the router as
+     it was (the validators and the conflict tests run before anything is
+     stored) and the history goes on *)
+  Definition register_history (hist : list (list pseg * endpoint))
+    : list (list pseg * endpoint) * node :=
+    fold_left (fun st d => match insert (snd st) d with
+                           | Ok r' => (fst st ++ [d], r')
+                           | Err _ => st
+                           end) hist ([], empty_node).
+
   (* ---------- lookup ---------- *)
 
   (* [VariableSet = BTreeMap<String, VariableValue>]: key-sorted, insert
